@@ -60,6 +60,10 @@ class Facts:
         for d in self.doc["functions"]:
             self.fns[d["path"]] = Fn(d)
         self.adts = {a["path"]: a for a in self.doc["adts"]}
+        try:
+            import mir as _mir
+            _mir._SEQ_F[0] = self        # lets mir.str_eq_cond resolve promoted string constants
+        except Exception: pass
         self.impls = self.doc["impls"]
     def fn(self, path):
         return self.fns.get(path)
